@@ -18,6 +18,7 @@ import (
 	"go/types"
 	"os"
 	"strings"
+	"testing/fstest"
 	"time"
 
 	"github.com/traefik/yaegi/interp"
@@ -251,6 +252,124 @@ func init() {
 
 func main() { fw.Main("C12", "model_checking", run) }
 
+// ---- second half: nothing executes before the verdict, package initialisation of
+// imported source packages included (spec/types/Pipeline.tla) ----
+
+type pipeProg struct {
+	MainImports []string `json:"mainImports"`
+	PImportsQ   bool     `json:"pImportsQ"`
+	Err         string   `json:"err"`
+}
+
+type pipeBeh struct {
+	Prog     pipeProg `json:"prog"`
+	Verdict  string   `json:"verdict"`
+	Expected []string `json:"expected"`
+}
+
+func (b pipeBeh) key() string {
+	return fmt.Sprintf("imports=%v pImportsQ=%v err=%s", b.Prog.MainImports, b.Prog.PImportsQ, b.Prog.Err)
+}
+
+func (b pipeBeh) files() map[string]string {
+	bad := func(unit string) string {
+		if b.Prog.Err == unit {
+			return "\nfunc bad() { undefinedFunction() }\n"
+		}
+		return ""
+	}
+	has := func(x string) bool {
+		for _, m := range b.Prog.MainImports {
+			if m == x {
+				return true
+			}
+		}
+		return false
+	}
+	imp := ""
+	if has("p") {
+		imp += "import \"p\"\n"
+	}
+	if has("q") {
+		imp += "import \"q\"\n"
+	}
+	use := ""
+	if has("p") {
+		use += "\t_ = p.V\n"
+	}
+	if has("q") {
+		use += "\t_ = q.V\n"
+	}
+	pimp, puse := "", ""
+	if b.Prog.PImportsQ {
+		pimp, puse = "import \"q\"\n", "var W = q.V\n"
+	}
+	return map[string]string{
+		"main.go":       "package main\n\nimport \"fmt\"\n" + imp + "\nfunc main() {\n\tfmt.Println(\"main\")\n" + use + "}\n" + bad("main"),
+		"gp/src/p/p.go": "package p\n\nimport \"fmt\"\n" + pimp + "\nvar V = 1\n" + puse + "\nfunc init() { fmt.Println(\"p\") }\n" + bad("p"),
+		"gp/src/q/q.go": "package q\n\nimport \"fmt\"\n\nvar V = 2\n\nfunc init() { fmt.Println(\"q\") }\n" + bad("q"),
+	}
+}
+
+func pipeline(c *fw.Ctx) error {
+	// design level: the phases as they are violate NoExecBeforeVerdict
+	res, err := c.TLC(fw.TLCOpts{Dir: "spec/types", Module: "Pipeline", Cfg: "Pipeline.asis.cfg", Workers: 1, Timeout: 2 * time.Minute})
+	if err != nil {
+		return err
+	}
+	if !strings.Contains(res.Violated, "NoExecBeforeVerdict") {
+		return fmt.Errorf("Pipeline.tla (imports run during gta) is expected to violate NoExecBeforeVerdict, TLC says %q", res.Violated)
+	}
+	var behs []pipeBeh
+	res, err = c.TLC(fw.TLCOpts{Dir: "spec/types", Module: "Pipeline", Cfg: "Pipeline.gen.cfg", Workers: 1, Timeout: 2 * time.Minute,
+		OnBeh: func(r json.RawMessage) {
+			var b pipeBeh
+			if json.Unmarshal(r, &b) == nil {
+				behs = append(behs, b)
+			}
+		}})
+	if err != nil {
+		return err
+	}
+	if res.Violated != "" {
+		return fmt.Errorf("Pipeline.tla: %s", res.Violated)
+	}
+	for _, b := range behs {
+		mfs := fstest.MapFS{}
+		for n, t := range b.files() {
+			mfs[n] = &fstest.MapFile{Data: []byte(t)}
+		}
+		var out bytes.Buffer
+		i := interp.New(interp.Options{GoPath: "./gp", SourcecodeFilesystem: mfs, Stdout: &out, Stderr: new(bytes.Buffer)})
+		i.Use(stdlib.Symbols)
+		var evalErr error
+		func() {
+			defer func() {
+				if r := recover(); r != nil {
+					evalErr = fmt.Errorf("Go panic escaped: %v", r)
+				}
+			}()
+			_, evalErr = i.EvalPath("main.go")
+		}()
+		want := strings.Join(b.Expected, "\n")
+		if want != "" {
+			want += "\n"
+		}
+		c.Count("pipeline|"+b.key(), true)
+		c.TracesVsImpl++
+		rep := map[string]any{"pipeline": b, "files": b.files(), "stdout": out.String(), "err": fmt.Sprint(evalErr)}
+		switch {
+		case b.Verdict == "ok" && (evalErr != nil || out.String() != want):
+			c.FailCase("package initialisation and the verdict", "well-typed program rejected or initialised in the wrong order", b.key(), rep)
+		case b.Verdict == "err" && evalErr == nil:
+			c.FailCase("package initialisation and the verdict", "accepted", b.key(), rep)
+		case b.Verdict == "err" && out.String() != "":
+			c.FailCase("package initialisation and the verdict", "imported packages initialised before the error was reported", b.key(), rep)
+		}
+	}
+	return nil
+}
+
 // group names the part of the type checker a case exercises (one known finding per group).
 func group(k kase) string {
 	switch k.Ctx {
@@ -356,6 +475,11 @@ func run(c *fw.Ctx) error {
 	}
 	if len(cur.Src) > 0 {
 		jobs, index = append(jobs, cur), append(index, curIdx)
+	}
+	if c.Replay == "" {
+		if err := pipeline(c); err != nil {
+			return err
+		}
 	}
 	var dump []string
 	defer func() {
